@@ -597,6 +597,8 @@ struct World {
     /// txids of transactions with an output to the wallet, and such transactions dropped by a fork
     own_txids: BTreeSet<Vec<u8>>,
     orphan_txs: Vec<CompactTx>,
+    /// rows of `orchard_ironwood_migrations`: (anchor bucket interval, non-terminal?)
+    migrations: Vec<(u32, bool)>,
 }
 /// `p` lies inside, and is not the last position of, the ommer of the frontier at `q` that covers it
 fn inside_ommer(p: u64, q: u64) -> bool {
@@ -670,10 +672,44 @@ impl World {
             act,
             own_txids: BTreeSet::new(),
             orphan_txs: vec![],
+            migrations: vec![],
         }
     }
     fn tip(&self) -> u32 {
         BASE + self.chain.len() as u32 - 1
+    }
+    /// Records a pool migration committed under the grid `interval` in the wallet database
+    /// (`status` is a MigrationStatus wire name; at most one non-terminal row per account).
+    fn add_migration(&mut self, interval: u32, status: &str) {
+        let live = !matches!(status, "complete" | "failed" | "superseded" | "cancelled");
+        self.db
+            .conn()
+            .execute(
+                "INSERT INTO orchard_ironwood_migrations
+                   (account_id, status, note_split_fee_buffer, note_split_prep_fees, note_split_total_input,
+                    note_split_total_migratable, anchor_bucket_interval, uuid)
+                 VALUES ((SELECT id FROM accounts LIMIT 1), ?1, 0, 0, 0, 0, ?2, randomblob(16))",
+                rusqlite::params![status, interval],
+            )
+            .expect("insert migration row");
+        self.migrations.push((interval, live));
+    }
+    /// The in-flight migration (if any) reaches a terminal status.
+    fn finish_migration(&mut self, status: &str) {
+        let n = self
+            .db
+            .conn()
+            .execute(
+                "UPDATE orchard_ironwood_migrations SET status = ?1
+                 WHERE status NOT IN ('complete', 'failed', 'superseded', 'cancelled')",
+                rusqlite::params![status],
+            )
+            .expect("update migration row");
+        if n > 0 {
+            for m in self.migrations.iter_mut() {
+                m.1 = false;
+            }
+        }
     }
     /// a frontier at position `q` was inserted into pool `p`
     fn note_frontier(&mut self, p: usize, q: u64) {
@@ -1404,7 +1440,15 @@ fn emit_scan(w: &mut World, iv: u32, from: u32, limit: usize, full: bool, r: &mu
     let which = which_roots(&pre, &post, full, r);
     let m = check_merkle(w, &post, &which, r, st);
     let heights: BTreeSet<u32> = post.iter().flat_map(|l| l.0.iter().map(|e| e.0)).collect();
-    let pol = Some((w.act, vec![iv]));
+    // ground truth of the retention policy: the configured grid and the grid of every in-flight
+    // (non-terminal) migration, from NU6.3 activation upward
+    let pol = {
+        let mut ivs = vec![iv];
+        ivs.extend(w.migrations.iter().filter(|(_, live)| *live).map(|(i, _)| *i));
+        ivs.sort();
+        ivs.dedup();
+        Some((w.act, ivs))
+    };
     // a refusal by the Merkle layer names the pool: it is excused only when THAT pool is hazardous
     let hz = match &res {
         Err(e) if e.contains("pool: Sapling") => w.hazard[0],
@@ -1826,6 +1870,31 @@ fn scripted_histories(seed: u64, r: &mut Rng, st: &mut Stats) {
         }
         st.bump("wallet_histories");
     }
+    // An in-flight migration committed under another grid (7) than the wallet is configured with
+    // (144), and a finished one (grid 5) that must not contribute: boundaries of BOTH live grids
+    // must keep checkpoints, roots and witnesses past 200 further blocks; once the migration is
+    // terminal only the configured grid is retained.
+    {
+        if trace() {
+            eprintln!("scripted migration grids");
+        }
+        let iv = 144;
+        let mut w = mk_world(seed, 1_000_013, iv);
+        w.add_migration(5, "complete");
+        w.add_migration(7, "committed");
+        for h in 0..=85u32 {
+            w.push_block(&[(h as usize % 3, h % 8 == 1), ((h as usize + 1) % 3, false), ((h as usize + 2) % 3, false)]);
+        }
+        emit_scan(&mut w, iv, BASE, 1000, false, r, st);
+        for _ in 0..200 {
+            w.push_block(&[(0, false), (1, false), (2, false)]);
+        }
+        emit_scan(&mut w, iv, BASE + 86, 1000, true, r, st);
+        emit_trunc(&mut w, BASE + 280, r, st);
+        w.finish_migration("cancelled");
+        emit_scan(&mut w, iv, BASE + 281, 1000, false, r, st);
+        st.bump("wallet_histories");
+    }
     // C06-F2: rewind into a completed subtree whose hash an earlier frontier insertion cached.
     {
         if trace() {
@@ -1874,8 +1943,15 @@ fn wallet_history(seed: u64, idx: u64, r: &mut Rng, st: &mut Stats, long: bool) 
         gsize[2] = 0;
     }
     let mut w = mk_world_p(seed, idx, iv, gsize, act);
+    if r.chance(1, 3) {
+        let t = *r.pick(&[3u32, 7, 10, 144]);
+        w.add_migration(t, *r.pick(&["complete", "failed", "superseded", "cancelled"]));
+        let l = *r.pick(&[3u32, 7, 10]);
+        w.add_migration(l, *r.pick(&["planning", "committed", "in_progress"]));
+        st.bump("histories_with_migration_rows");
+    }
     if trace() {
-        eprintln!("hist {idx} iv {iv} profile {profile} long {long} act {act}");
+        eprintln!("hist {idx} iv {iv} profile {profile} long {long} act {act} migrations {:?}", w.migrations);
     }
     st.bump("wallet_histories");
     let nops = if long { 9 + r.below(6) } else { 6 + r.below(6) };
@@ -1897,6 +1973,10 @@ fn wallet_history(seed: u64, idx: u64, r: &mut Rng, st: &mut Stats, long: bool) 
             }
         }
         let tip = w.tip();
+        if w.migrations.iter().any(|m| m.1) && r.chance(1, 12) {
+            w.finish_migration(*r.pick(&["complete", "cancelled"]));
+            st.bump("migrations_finished");
+        }
         if scanned_hi >= BASE && r.chance(1, 5) {
             let req = match r.below(8) {
                 0 => scanned_hi + r.below(3) as u32,
